@@ -142,6 +142,7 @@ func report(id, tier string, ps *PropSpec, results []*RunResult, loadT, wall tim
 		Params      map[string]int `json:"params,omitempty"`
 		AllOrders   bool           `json:"all_map_orders"`
 		Race        bool           `json:"race_detection"`
+		Canonical   bool           `json:"canonical_schedule_only"`
 		SolverQ     int            `json:"solver_queries"`
 		SolverS     float64        `json:"solver_time_s"`
 		WallS       float64        `json:"wall_s"`
@@ -175,7 +176,7 @@ func report(id, tier string, ps *PropSpec, results []*RunResult, loadT, wall tim
 		}
 		runs = append(runs, runEv{Harness: r.Cfg.Harness, Claim: r.spec.Claim, Paths: r.Stats.Paths, Forks: r.Stats.Forks, Obligations: r.Stats.Obligations,
 			Discharged: r.Stats.Discharged, Violations: r.Stats.Violations, Known: r.Stats.Known, Schedules: r.Stats.Switches, VisibleOps: r.Stats.VisibleOps,
-			Steps: r.Stats.Steps, Preempt: r.Cfg.Preempt, Env: r.Cfg.EnvEvents, Params: r.Cfg.Params, AllOrders: r.Cfg.AllMapOrders, Race: r.Cfg.Race,
+			Steps: r.Stats.Steps, Preempt: r.Cfg.Preempt, Env: r.Cfg.EnvEvents, Params: r.Cfg.Params, AllOrders: r.Cfg.AllMapOrders, Race: r.Cfg.Race, Canonical: r.Cfg.Canonical,
 			SolverQ: r.SolverQ, SolverS: r.SolverT.Seconds(), WallS: r.Wall.Seconds(), Reach: r.Stats.AssertReach, Status: r.Stats.Status})
 		h := r.Cfg.Harness
 		if r.Stats.Unsupported > 0 {
